@@ -45,7 +45,8 @@ func NewDualView() *View {
 
 func NewViewFromGroupedRecord(ctx context.Context, flags *option.Flags, referenceRecord ReferenceRecord) (*View, error) {
 	view := NewView()
-	view.Header = referenceRecord.view.Header
+	// The views of the groups are evaluated by several goroutines, each of which may append fields to the header.
+	view.Header = referenceRecord.view.Header.Copy()
 	record := referenceRecord.view.RecordSet[referenceRecord.recordIndex]
 
 	view.RecordSet = make(RecordSet, record.GroupLen())
